@@ -34,9 +34,11 @@ class StopMain(Exception):
     pass
 
 
-def run_main(K, W, settings, code, lock_outcomes, cpus=None, may_fail=None):
+def run_main(K, W, settings, code, lock_outcomes, cpus=None, may_fail=None, base_input=None, world=None):
     mcworld.Gen.seed_pairs = []
-    w = mcworld.MCWorld(OUTPUTS, [True, True], False)
+    w = world or mcworld.MCWorld(OUTPUTS, [True, True], False)
+    if base_input is not None:
+        w.fs['/w/base_input.txt'] = base_input
     w.fs['/w/settings.txt'] = (''.join('INPUT, ' + ', '.join(s) + '\n' for s in settings) + ''.join(f'OUTPUT, {o}\n' for o in OUTPUTS)
                                + f'ITERATIONS, {K}\nMC_OUTPUT_FILE, {RESULT}\n')
     obs = []
@@ -278,13 +280,83 @@ BOUNDS = {'quick': [(2, 2, 0, False), (3, 2, 1, False), (2, 2, 0, True)],
 MANY = {'quick': [(8, 1, 2)], 'thorough': [(8, 1, 3), (16, 2, 2), (12, 1, 3)]}     # (iterations, processors, iterations that may fail)
 
 
+def run_history_unit(unit):
+    """two studies in one process, the base-case file edited in between: a distribution parameter given as '#' (take the value from the
+    base-case file) must resolve to what the file holds when the study runs."""
+    cfg = {'harness': 'main-history', 'studies': 2, 'settings': "Reservoir Temperature, normal, #, 25"}
+    log = harness.UnitLog(cfg)
+    zv = {}
+    world = lambda inp: (True, {'note': 'fact about two consecutive real main() runs in the in-memory world'})
+
+    def fn():
+        w = mcworld.MCWorld(OUTPUTS, [True, True], False)
+        out = []
+        for base in ('250', '150'):
+            settings = [['Reservoir Temperature', 'normal', '#', '25']]
+            r = run_main(1, 1, settings, 'GEOPHIRESv3.py', False, base_input=f'Reservoir Temperature, {base}\nReservoir Porosity, 10\n', world=w)
+            out.append((base, r))
+        return out
+    for pr in core.explore(fn, max_paths=64):
+        log.path(pr)
+        if pr.error is not None:
+            raise pr.error
+        if pr.aborted:
+            continue
+        harness.reachable(log, pr.ctx, 500)
+        for study, (base, r) in enumerate(pr.value):
+            draws = [d for o in r['obs'] if not o.get('skipped') for d in o['draws']]
+            ok = bool(draws) and all(d.dist == 'normal' and abs(float(str(d.params[0]).strip()) - float(base)) < 1e-9 for d in draws)
+            harness.discharge(log, pr.ctx, f"study {study + 1}: a mean given as '#' is the value the base-case file holds when the study runs ({base})", ok, zv,
+                              lambda inp: replay_base_history(), sample=(study == 0))
+    yield log.result()
+
+
+def replay_base_history():
+    """real main(), real pool, real HIP-RA-X, twice in this process with the base-case file rewritten in between."""
+    if 'hist' in _REPLAY:
+        return _REPLAY['hist']
+    import contextlib
+    import io
+    import warnings
+    from .. import gx
+    d = tempfile.mkdtemp(prefix='symx_c13hist_')
+    cwd, argv = os.getcwd(), sys.argv
+    means = []
+    try:
+        inp, st, out = (os.path.join(d, n) for n in ('hip.txt', 'settings.txt', 'MC_Result.txt'))
+        with open(st, 'w') as f:
+            f.write('INPUT, Reservoir Temperature, normal, #, 0.01\nOUTPUT, Producible Electricity (reservoir)\nITERATIONS, 4\nMC_OUTPUT_FILE, %s\n' % out)
+        for base in (250.0, 150.0):
+            with open(inp, 'w') as f:
+                f.write(f'Reservoir Temperature, {base}\nRejection Temperature, 60.0\nReservoir Porosity, 10.0\nReservoir Area, 55.0\nReservoir Thickness, 0.25\nReservoir Life Cycle, 25\n')
+            with contextlib.redirect_stdout(io.StringIO()), contextlib.redirect_stderr(io.StringIO()), warnings.catch_warnings():
+                warnings.simplefilter('ignore')
+                try:
+                    MC.main(command_line_args=[os.path.join(gx.SRC, 'hip_ra_x', 'hip_ra_x.py'), inp, st, out])
+                except Exception:
+                    pass
+            vals = [float(ln.split('Reservoir Temperature:')[1].split(';')[0]) for ln in open(out).read().splitlines()[1:] if 'Reservoir Temperature:' in ln]
+            means.append((base, sum(vals) / len(vals) if vals else None))
+    finally:
+        os.chdir(cwd)
+        sys.argv = argv
+        shutil.rmtree(d, ignore_errors=True)
+    bad = [(b, m) for b, m in means if m is None or abs(m - b) > 1.0]
+    _REPLAY['hist'] = (bool(bad), {'(value in the base-case file, mean of the sampled values)': means})
+    return _REPLAY['hist']
+
+
 def units(tier):
     us = [{'harness': 'main', 'K': K, 'W': W, 'settings': si, 'lock_outcomes': lo, 'code': 'hip_ra_x.py' if si % 2 else 'GEOPHIRESv3.py'} for (K, W, si, lo) in BOUNDS[tier]]
     us += [{'harness': 'main', 'K': K, 'W': 1, 'settings': 0, 'lock_outcomes': False, 'code': 'GEOPHIRESv3.py', 'cpus': cp, 'may_fail': mf} for (K, cp, mf) in MANY[tier]]
+    us.append({'harness': 'main', 'history': True, 'lock_outcomes': False})
     return us
 
 
 def run_unit(unit):
+    if unit.get('history'):
+        yield from run_history_unit(unit)
+        return
     K, W, si, code, lo = unit['K'], unit['W'], unit['settings'], unit['code'], unit['lock_outcomes']
     settings = [list(s) for s in c13.SETTINGS[si]]
     cfg = {'harness': 'main', 'K': K, 'W': W, 'settings': c13.SETTINGS[si], 'code': code, 'lock_outcomes': lo, 'cpus': unit.get('cpus'), 'may_fail': unit.get('may_fail')}
